@@ -114,4 +114,16 @@ CHECKS = {
         "text": "Two proxy instances (peer untrusted / trusted) with 10 rules covering every rewrite option receive seeded requests written byte-exact on the socket: pchar paths with arbitrary percent-encoding, queries with repeated/encoded/valueless parameters, all methods, bodies up to 1 MiB, client headers colliding with pipeline headers in random casing/repetition, forwarding headers. The upstream's request line must equal add(strip(client escaped path)) byte for byte, the query must be byte-identical (or equal as multimap minus removed parameters), method/body/Host as required, pipeline headers win, X-Forwarded-Method/-Uri/-Path never arrive, X-Forwarded-For/Forwarded end with the peer address and extend trusted values. Scheme rewrite is checked on Backend.CreateURL.",
         "note": "Paths use RFC 3986 pchar characters only; with removed parameters the query is compared as multimap with per-key order; with allow_encoded_slashes: on the path is compared after decoding. A trusted peer's X-Forwarded-Method/-Uri/-Host/-Proto carry the actual values (their overriding effect is C09's subject).",
     },
+    "C16": {
+        "level": "exploration",
+        "technique": "runtime monitoring: porcupine linearizability check (register = current key generation) + per-token/JWKS oracles with stdlib crypto + Go race detector on a lock-shimmed build, child processes; e2e monotonicity through decision and management endpoints",
+        "text": "Signer level: the real jwt finalizer (created through the real factory code with a capturing watcher and key-holder registry) is driven by token goroutines, JWKS readers and a reloader that atomically replaces the PEM key store (RSA 2048-4096, EC P-256/384/521, with/without certificates and key ids, 1-3 entries, unique key per generation, hostile claims templates); every token must name kid/alg of one generation and verify with that generation's public key, carry sub/iss/iat=nbf/exp=iat+ttl/jti undisturbed by custom claims; every JWKS read is exactly one generation's public set without private members; histories are checked with porcupine; rejected reloads must leave keys and published set untouched. E2E: fx app with secrets reload, tokens via the decision service and JWKS via the management endpoint while the key store file is rewritten (real fsnotify): real-time monotonicity of generations. Race reports, crashes and lock-order inversions are violations.",
+        "note": "Oracle verifies with Go stdlib crypto only. E2E reload intervals are open-ended (asynchronous), so only monotone-safe facts are asserted there. Race freedom only on interleavings produced; lock shims are a textual replacement of sync.(RW)Mutex in the current jwt_signer.go / watcher_impl.go.",
+    },
+    "C18": {
+        "level": "fault_enumeration",
+        "technique": "runtime monitoring: exhaustive event/fetch-outcome sequences driven into the providers' own decision functions (in-package) with a recording rule-set processor; model of last applied content per source; real fsnotify / scheduler / informer loops with logical quiescence",
+        "text": "For each provider (file_system, http_endpoint, cloud_blob, kubernetes) all sequences up to length 4 (quick) / 5 (thorough) over 11-13 symbols per source (appear, change, same content, empty, invalid, unsupported type, disappear, rename, 404/500, refused, timeout, processor failure, second source, watch outage with replace/delete) are applied to the real provider code against a real temp directory, a scripted loopback server, gofakes3 and a fake Kubernetes API with the real client-go informer; the recorded OnCreated/OnUpdated/OnDeleted calls are compared per step with a model driven by the actual source state (exactly-once, no spurious reload, invalid keeps previous, failed call leaves state) and at the end the active rule sets must equal the latest valid content of the existing sources.",
+        "note": "In-module fakes stand in for S3 and the Kubernetes API. HTTP 500 and unsupported content type are generated but not asserted (statement and docs disagree). Quiescence of asynchronous modes is logical (sentinel file, request gate), a watchdog is inconclusive. Two open known findings (pinned by existing unit tests).",
+    },
 }
